@@ -11,15 +11,23 @@ fn run_n<const N: usize>(case: &Case) -> Vec<i64> {
     // the value is created as a unique handle, turned into a shared one, and its handles multiplied with the bulk API
     let hs: Vec<usize> = case.gets("hs").split(',').filter(|s| !s.is_empty()).map(|s| s.parse().unwrap()).collect();
     let total: usize = hs.iter().sum();
-    let unique = OgreUnique::new(|slot: &mut u32| *slot = 4242, a).expect("alloc");
-    let first: OgreArc<u32, Alloc<N>> = unique.into_ogre_arc();
-    let mut all = vec![];
     // shared=1: the first handle is owned by no thread - every thread may borrow it (`sclone` clones it, `scount` reads the count through
     // it): possibly the sole handle, shared by reference
     let shared_mode = case.get("shared", 0) == 1;
     let extra = if shared_mode { total } else { total - 1 };
-    if extra > 0 { unsafe { first.increment_references(extra as u32); } }
-    for _ in 0..extra { all.push(unsafe { first.raw_copy() }); }
+    let mut all = vec![];
+    // ctor=1: all the handles come from the bulk constructor `new_with_clones::<COUNT>` (one counter pre-loaded with COUNT)
+    macro_rules! bulk { ($($k:literal),+) => { match extra + 1 { $($k => OgreArc::<u32, Alloc<N>>::new_with_clones::<$k, _>(|slot: &mut u32| *slot = 4242, a).expect("alloc").into_iter().collect::<Vec<_>>(),)+ k => panic!("arc: ctor=1 with {k} handles") } } }
+    let first: OgreArc<u32, Alloc<N>> = if case.get("ctor", 0) == 1 {
+        let mut v = bulk!(1, 2, 3, 4, 5, 6, 7, 8, 9, 10, 11, 12);
+        let first = v.remove(0); all.extend(v); first
+    } else {
+        let unique = OgreUnique::new(|slot: &mut u32| *slot = 4242, a).expect("alloc");
+        let first: OgreArc<u32, Alloc<N>> = unique.into_ogre_arc();
+        if extra > 0 { unsafe { first.increment_references(extra as u32); } }
+        for _ in 0..extra { all.push(unsafe { first.raw_copy() }); }
+        first
+    };
     let mut locs = LocMap::new();
     locs.cell(first.verif_count_addr(), 0);
     locs.cell(0, -1); locs.cell(1, 1);
